@@ -4,7 +4,10 @@
 `replay/C09_probe.py` (hostile ZIP / TAR / 7z corpus under a file-system observer, temp dir lifetime under every consumer history,
 skip rules in every format, oversize members).  The obligation that asked for the replay only decides which probe runs first.
 Round 5: sibling directories whose names extend the private directory's name (character-wise prefix tests); the two BOUNDED collision scopes
-(`name_collisions_7z`, `name_collisions_7z_known_temp_name` with tempfile's name sequence pinned) run only for their own obligations."""
+(`name_collisions_7z`, `name_collisions_7z_known_temp_name` with tempfile's name sequence pinned) run only for their own obligations.
+Round 6: nested-archive names with decoration after the extension (trailing dots / blanks, URL / version marks) in the skip-rule corpus; 7z entries
+that are left out (unsafe names) followed by ordinary members of the same folder (`rejected_entries_7z`); extraction failing with neither
+Bad7zFile nor OSError (directory levels beyond the recursion limit) in `histories`; `nested_alias_members` only for its own obligation."""
 import os
 import sys
 import tempfile
@@ -110,15 +113,20 @@ def find(req):
         # a recorded defect of the unchanged tree: probed only for its own obligation, never as a witness for another one
         r = P.name_collisions_7z()
         return r if r is not None else {"reproduced": False, "note": "7z entries sharing one path: no selected member gave another entry's bytes"}
+    if "names-routed-to-the-archive-reader" in oid or (req or {}).get("known_finding") == "C09-nested-archive-aliases-are-dispatched":
+        # a recorded defect of the unchanged tree: probed only for its own obligation, never as a witness for another one
+        r = P.nested_alias_members()
+        return r if r is not None else {"reproduced": False, "note": "members named .gz / .bz2 / .xz / .taz / .tz (router: archive reader) gave no result"}
     hint = (req or {}).get("extra") or {}
     first = tuple(hint.get("first", ())) if isinstance(hint, dict) else ()
     probes = [("function-level", function_level), ("confinement", lambda: P.confinement(first)), ("histories", P.histories), ("skip-rules", P.skip_rules),
-              ("oversize", archive_probe.oversize_members), ("oversize-7z", P.oversize_7z), ("declared-sizes", P.declared_sizes)]
+              ("oversize", archive_probe.oversize_members), ("oversize-7z", P.oversize_7z), ("declared-sizes", P.declared_sizes),
+              ("rejected-entries", P.rejected_entries_7z)]
     pref = []
-    if "skip" in oid:
-        pref = ["function-level", "skip-rules"]
+    if "skip" in oid or "router" in oid or "routing" in oid:
+        pref = ["skip-rules", "function-level"] if "rout" in oid else ["function-level", "skip-rules"]
     elif "declared" in oid or "bytes-written" in oid:
-        pref = ["declared-sizes"]
+        pref = ["declared-sizes", "rejected-entries"]
     elif "oversize" in oid or "size" in oid:
         pref = ["oversize", "oversize-7z", "declared-sizes"]
     elif "temp-dir" in oid:
